@@ -1,5 +1,7 @@
 // End to end: an endpoint with 2-3 backends, each with its own manipulation options, behind
 // the default factory (parallel merge) and the gin JSON render; the decoded client body.
+// The arrival order of the answers at the merge is imposed (per-backend gates + the dequeue
+// hook). Runs in a child process (child.go).
 package main
 
 import (
@@ -23,10 +25,26 @@ import (
 )
 
 type beSpec struct {
-	c       fcfg
-	ic      bool
-	payload interface{}
+	C       fcfg        `json:"c"`
+	IC      bool        `json:"ic"`
+	Payload interface{} `json:"p"`
 }
+
+// Bes in ARRIVAL order at the merge
+type e2eSpec struct {
+	Bes []beSpec `json:"bes"`
+}
+
+type e2eBackendRes struct {
+	O      *wireObs `json:"o"` // nil: no response (decoder error)
+	OT, OF wireObs
+}
+type e2eRes struct {
+	Backends []e2eBackendRes `json:"backends"`
+	Client   []wireObs       `json:"client"` // distinct results of the runs; P with M "<no document>": error status
+}
+
+var deqCh = make(chan struct{}, 256)
 
 // nil: the client got an error status (no document)
 func runEndpoint(bes []beSpec, bodies [][]byte) (res *obsv) {
@@ -37,19 +55,28 @@ func runEndpoint(bes []beSpec, bodies [][]byte) (res *obsv) {
 	}()
 	ep := &config.EndpointConfig{Endpoint: "/x", Method: "GET"}
 	for i, b := range bes {
-		be := b.c.backend()
+		be := b.C.backend()
 		be.URLPattern = fmt.Sprintf("/b%d", i)
-		be.IsCollection = b.ic
+		be.IsCollection = b.IC
 		ep.Backend = append(ep.Backend, be)
 	}
 	sc := &config.ServiceConfig{Version: config.ConfigVersion, Timeout: 10 * time.Minute, Host: []string{"http://127.0.0.1:8081"}, Endpoints: []*config.EndpointConfig{ep}}
 	if err := sc.Init(); err != nil {
 		panic(err)
 	}
+	gates := make([]chan struct{}, len(bes))
+	for i := range gates {
+		gates[i] = make(chan struct{})
+	}
 	bf := func(be *config.Backend) proxy.Proxy {
 		for i := range bes {
 			if be.URLPattern == fmt.Sprintf("/b%d", i) {
-				return proxy.NewHTTPProxyWithHTTPExecutor(be, executor(bodies[i]), be.Decoder)
+				ex := executor(bodies[i])
+				gate := gates[i]
+				return proxy.NewHTTPProxyWithHTTPExecutor(be, func(ctx context.Context, rq *http.Request) (*http.Response, error) {
+					<-gate
+					return ex(ctx, rq)
+				}, be.Decoder)
 			}
 		}
 		panic("unknown backend " + be.URLPattern)
@@ -58,6 +85,24 @@ func runEndpoint(bes []beSpec, bodies [][]byte) (res *obsv) {
 	if err != nil {
 		panic(err)
 	}
+	for len(deqCh) > 0 {
+		<-deqCh
+	}
+	stop := make(chan struct{})
+	defer close(stop)
+	go func() { // release the backends one by one: the next after the merge dequeued the previous
+		for i := range gates {
+			close(gates[i])
+			select {
+			case <-deqCh:
+			case <-stop:
+				for j := i + 1; j < len(gates); j++ {
+					close(gates[j])
+				}
+				return
+			}
+		}
+	}()
 	rec := httptest.NewRecorder()
 	e := gin.New()
 	e.GET("/x", krakendgin.EndpointHandler(ep, p))
@@ -78,86 +123,147 @@ func runEndpoint(bes []beSpec, bodies [][]byte) (res *obsv) {
 	return &obsv{data: m}
 }
 
-func e2eCase(w *out.Writer, stream string, bes []beSpec) {
-	bodies := make([][]byte, len(bes))
-	var items []string
-	var bjs []interface{}
-	sig := ""
-	for i, b := range bes {
-		body, err := json.Marshal(b.payload)
+func specDoc(b beSpec) (obj, bool) {
+	if a, ok := b.Payload.([]interface{}); ok && b.IC {
+		return obj{"collection": a}, true
+	} else if m, ok := b.Payload.(map[string]interface{}); ok && !b.IC {
+		return m, true
+	}
+	return nil, false
+}
+
+func e2eObserve(s e2eSpec) e2eRes {
+	var res e2eRes
+	bodies := make([][]byte, len(s.Bes))
+	for i, b := range s.Bes {
+		body, err := json.Marshal(b.Payload)
 		if err != nil {
 			panic(err)
 		}
 		bodies[i] = body
-		o := runProxy(b.c, b.ic, body)
-		var ddoc obj
-		defined := false
-		if a, ok := b.payload.([]interface{}); ok && b.ic {
-			ddoc, defined = obj{"collection": a}, true
-		} else if m, ok := b.payload.(obj); ok && !b.ic {
-			ddoc, defined = m, true
+		var br e2eBackendRes
+		if o := runProxy(b.C, b.IC, body); o != nil {
+			x := toWire(*o)
+			br.O = &x
 		}
-		ot, of := obsv{data: obj{}}, obsv{data: obj{}}
-		if defined {
-			ot, of = runFormat(b.c.targetOnly(), ddoc), runFormat(b.c.filterOnly(), ddoc)
+		br.OT, br.OF = toWire(obsv{data: obj{}}), toWire(obsv{data: obj{}})
+		if ddoc, ok := specDoc(b); ok {
+			br.OT, br.OF = toWire(runFormat(b.C.targetOnly(), ddoc)), toWire(runFormat(b.C.filterOnly(), ddoc))
 		}
-		oc, oj := "None", interface{}("<no response>")
-		if o != nil {
-			oc, oj = emit.Some(o.coq()), o.js()
-		}
-		if b.c.overlapping() {
-			sig = sigOverlap
-		}
-		items = append(items, emit.Tuple(b.c.coq(), emit.Bool(b.ic), emit.Json(b.payload), ot.coq(), of.coq(), oc))
-		bjs = append(bjs, obj{"config": b.c.js(), "is_collection": b.ic, "payload": string(body),
-			"observed": obj{"target_only": ot.js(), "target_filter": of.js(), "full": oj}})
+		res.Backends = append(res.Backends, br)
 	}
-	os := runs(func() obsv {
-		x := runEndpoint(bes, bodies)
+	for _, o := range runs(func() obsv {
+		x := runEndpoint(s.Bes, bodies)
 		if x == nil {
 			return obsv{panicked: true, msg: "<no document>"}
 		}
 		return *x
+	}) {
+		res.Client = append(res.Client, toWire(o))
+	}
+	return res
+}
+
+func e2eChild(from int) {
+	var specs []e2eSpec
+	readChildInput(&specs)
+	proxy.SetVerifOnDequeue(func(site string) {
+		if site == "merge" {
+			select {
+			case deqCh <- struct{}{}:
+			default:
+			}
+		}
 	})
-	o := os[0]
-	var variants []interface{}
-	for _, x := range os {
-		variants = append(variants, x.js())
+	co := newChildOut()
+	for i := from; i < len(specs); i++ {
+		co.begin(i)
+		co.done(i, e2eObserve(specs[i]))
+	}
+}
+
+func e2eEmit(w *out.Writer, stream string, s e2eSpec, res *e2eRes, crash string) {
+	var items []string
+	var bjs []interface{}
+	sig := ""
+	for i, b := range s.Bes {
+		body, _ := json.Marshal(b.Payload)
+		ot, of := obsv{data: obj{}}, obsv{data: obj{}}
+		oc, oj := "None", interface{}("<no response>")
+		if res != nil {
+			br := res.Backends[i]
+			ot, of = fromWire(br.OT), fromWire(br.OF)
+			if br.O != nil {
+				o := fromWire(*br.O)
+				oc, oj = emit.Some(o.coq()), o.js()
+			}
+		} else {
+			// the process died in this unit: nothing was observed
+			crashObs := obsv{panicked: true, msg: crash}
+			ot, of, oc, oj = crashObs, crashObs, emit.Some(crashObs.coq()), crashObs.js()
+		}
+		if b.C.overlapping() {
+			sig = sigOverlap
+		}
+		items = append(items, emit.Tuple(b.C.coq(), emit.Bool(b.IC), emit.Json(b.Payload), ot.coq(), of.coq(), oc))
+		bjs = append(bjs, obj{"config": b.C.js(), "is_collection": b.IC, "payload": string(body), "arrives": i + 1,
+			"observed": obj{"target_only": ot.js(), "target_filter": of.js(), "full": oj}})
 	}
 	cc, cj := "None", interface{}("<error status>")
-	if !(o.panicked && o.msg == "<no document>") {
-		if o.panicked {
-			// a panic below the router: shown as a document no backend produced
-			cc, cj = emit.Some(emit.Obj(obj{"<panic>": o.msg})), o.js()
-		} else {
-			cc, cj = emit.Some(emit.Obj(o.data)), o.js()
+	stable := true
+	var variants []interface{}
+	if res != nil {
+		o := fromWire(res.Client[0])
+		stable = len(res.Client) == 1
+		for _, x := range res.Client {
+			variants = append(variants, fromWire(x).js())
 		}
+		if !(o.panicked && o.msg == "<no document>") {
+			if o.panicked {
+				cc, cj = emit.Some(emit.Obj(obj{"<panic>": o.msg})), o.js()
+			} else {
+				cc, cj = emit.Some(emit.Obj(o.data)), o.js()
+			}
+		}
+	} else {
+		cc, cj = emit.Some(emit.Obj(obj{"<crash>": crash})), obj{"crash": crash}
+		w.Count("endpoint:process-died")
 	}
-	term := emit.App("CE2E", emit.List(items), cc, emit.Bool(len(os) == 1))
+	term := emit.App("CE2E", emit.List(items), cc, emit.Bool(stable))
 	js := obj{"level": "endpoint", "stream": stream, "backends": bjs, "client": cj,
-		"same_result_in_every_run": len(os) == 1, "distinct_results": variants}
+		"arrival_order":            "imposed: the backends are listed in the order their answers reach the merge",
+		"same_result_in_every_run": stable, "distinct_results": variants}
 	cb, _ := json.Marshal(bjs)
 	w.Count("level:endpoint")
 	w.Count("stream:" + stream)
-	w.Count(fmt.Sprintf("endpoint:backends=%d", len(bes)))
+	w.Count(fmt.Sprintf("endpoint:backends=%d", len(s.Bes)))
 	if cc == "None" {
 		w.Count("endpoint:no-document")
 	}
 	w.Add(term, js, sig, "E|"+string(cb), true)
 }
 
-func e2eStream(w *out.Writer, r *rng.R, n int) {
+func e2eSpecs(r *rng.R, n int) ([]e2eSpec, int) {
 	num := func(s string) json.Number { return json.Number(s) }
 	arr := func(xs ...interface{}) []interface{} { return append([]interface{}{}, xs...) }
 	user := obj{"id": num("7"), "name": "n", "secret": obj{"token": "T", "hint": "h"}, "tags": arr("a", "b")}
 	orders := arr(obj{"id": num("1"), "card": "4111"}, obj{"id": num("2"), "card": "4222"})
 	acct := obj{"id": num("9"), "balance": num("10.50"), "secret": obj{"pin": "0000"}, "name": "acct"}
 	corpus := [][]beSpec{
+		// a target miss ARRIVES FIRST: the merge uses that part's (empty) map as its accumulator
+		// and writes the siblings' fields into it; every later target miss must still be {}
+		{{fcfg{Target: "zz"}, false, user}, {fcfg{Deny: []string{"secret"}}, false, acct}},
+		{{fcfg{Target: "zz", Group: "g"}, false, user}, {fcfg{Target: "name"}, false, acct}},
+		{{fcfg{Target: "tags"}, false, user}, {fcfg{Allow: []string{"balance"}}, false, acct}, {fcfg{Target: "collection"}, true, orders}},
+		{{fcfg{Target: "collection.id"}, true, orders}, {fcfg{Target: "secret.nope"}, false, user}},
+		{{fcfg{Target: "zz"}, false, acct}, {fcfg{Target: "zz"}, false, user}},
+		{{fcfg{Deny: []string{"secret"}}, false, acct}, {fcfg{Target: "zz"}, false, user}},
 		// disjoint by group
 		{{fcfg{Allow: []string{"id", "name"}, Group: "user"}, false, user}, {fcfg{Group: "orders"}, true, orders}},
 		{{fcfg{Deny: []string{"secret"}, Group: "user"}, false, user}, {fcfg{Deny: []string{"secret", "balance"}, Group: "account"}, false, acct}},
 		// overlapping top-level keys (id, name, secret): winner open, hidden fields of both stay hidden
 		{{fcfg{Allow: []string{"id", "name"}}, false, user}, {fcfg{Deny: []string{"secret"}}, false, acct}},
+		{{fcfg{Deny: []string{"secret"}}, false, acct}, {fcfg{Allow: []string{"id", "name"}}, false, user}},
 		{{fcfg{Deny: []string{"secret.token"}}, false, user}, {fcfg{Allow: []string{"secret.pin", "balance"}}, false, acct}},
 		{{fcfg{Deny: []string{"secret"}}, false, user}, {fcfg{}, false, acct}},
 		{{fcfg{Allow: []string{"secret.hint"}}, false, user}, {fcfg{Allow: []string{"secret.pin"}}, false, acct}, {fcfg{Deny: []string{"collection"}}, true, orders}},
@@ -165,17 +271,21 @@ func e2eStream(w *out.Writer, r *rng.R, n int) {
 		{{fcfg{Mapping: map[string]string{"name": "title"}, Deny: []string{"secret"}}, false, user}, {fcfg{Mapping: map[string]string{"name": "title"}, Allow: []string{"name"}}, false, acct}},
 		{{fcfg{Target: "secret"}, false, user}, {fcfg{Target: "secret", Group: "a"}, false, acct}, {fcfg{Mapping: map[string]string{"collection": "hint"}}, true, orders}},
 		{{fcfg{Target: "zz", Group: "g"}, false, user}, {fcfg{Allow: []string{"zz"}}, false, acct}},
-		// a backend whose decoder fails; all of them failing
+		// a backend whose decoder fails (first / last); all of them failing
 		{{fcfg{Allow: []string{"id"}}, false, user}, {fcfg{}, false, orders}},
+		{{fcfg{}, false, orders}, {fcfg{Target: "zz"}, false, user}, {fcfg{Allow: []string{"id"}}, false, acct}},
 		{{fcfg{}, true, user}, {fcfg{Allow: []string{"collection"}}, true, orders}, {fcfg{}, false, "scalar"}},
 		{{fcfg{}, true, user}, {fcfg{}, false, orders}},
 		{{fcfg{}, false, num("1")}, {fcfg{Group: "g"}, true, obj{}}, {fcfg{}, true, true}},
 		// same payload, different views
 		{{fcfg{Allow: []string{"id"}, Group: "a"}, false, user}, {fcfg{Deny: []string{"id"}, Group: "b"}, false, user}, {fcfg{Target: "secret", Group: "c"}, false, user}},
 		{{fcfg{Allow: []string{"collection"}, Mapping: map[string]string{"collection": "list"}}, true, orders}, {fcfg{Group: "collection"}, true, arr()}},
+		// and a target miss after all that
+		{{fcfg{Target: "nope"}, false, user}, {fcfg{Target: "id"}, false, acct}},
 	}
+	var specs []e2eSpec
 	for _, bes := range corpus {
-		e2eCase(w, "endpoint-corpus", bes)
+		specs = append(specs, e2eSpec{bes})
 	}
 	for i := 0; i < n; i++ {
 		nb := 2 + r.Intn(2)
@@ -211,12 +321,52 @@ func e2eStream(w *out.Writer, r *rng.R, n int) {
 				ddoc = m
 			}
 			c := genCfg(r, ddoc)
+			if r.Chance(1, 6) { // a target that misses
+				c.Target = []string{"zz", "a.zz", "collection.zz"}[r.Intn(3)]
+			}
 			if !share && r.Chance(1, 2) {
 				c.Group = fmt.Sprintf("g%d", j)
 			}
 			bes = append(bes, beSpec{c, ic, p})
 		}
-		e2eCase(w, "endpoint-random", bes)
+		// the list order is the imposed arrival order: shuffle it
+		pm := r.Perm(len(bes))
+		sh := make([]beSpec, len(bes))
+		for a, b := range pm {
+			sh[a] = bes[b]
+		}
+		specs = append(specs, e2eSpec{sh})
 	}
-	_ = context.Background
+	return specs, len(corpus)
+}
+
+func e2eStream(w *out.Writer, cfg out.Config, r *rng.R, n int) {
+	specs, nCorpus := e2eSpecs(r, n)
+	results := make([]*e2eRes, len(specs))
+	crashes := map[int]string{}
+	runUnits(cfg, "e2e", specs, len(specs),
+		func(i int, raw json.RawMessage) {
+			var res e2eRes
+			d := json.NewDecoder(strings.NewReader(string(raw)))
+			d.UseNumber()
+			if d.Decode(&res) == nil && len(res.Backends) == len(specs[i].Bes) && len(res.Client) > 0 {
+				results[i] = &res
+			} else {
+				crashes[i] = "unreadable result from the child process"
+			}
+		},
+		func(i int, text string) { crashes[i] = text })
+	for i, s := range specs {
+		stream := "endpoint-random"
+		if i < nCorpus {
+			stream = "endpoint-corpus"
+		}
+		if results[i] != nil {
+			e2eEmit(w, stream, s, results[i], "")
+		} else if text, ok := crashes[i]; ok {
+			e2eEmit(w, stream, s, nil, text)
+		} else {
+			w.Count("endpoint:not-run-after-repeated-crashes")
+		}
+	}
 }
